@@ -26,6 +26,11 @@ Proof. vm_compute. reflexivity. Qed.
 Lemma gen_names_are_content_hashes : hash_text_exact = true /\ 9 <= hash_name_chars.
 Proof. split; [reflexivity | vm_compute; repeat constructor]. Qed.
 
+(** the filter that tells a duplicated CTE apart is built from a fresh string and is ADDED to the CTE's own WHERE:
+    [add_uuid] keeps the block of the CTE and tags it with a token no other CTE carries *)
+Lemma gen_dedup_filter_keeps_the_cte : dedup_filter_fresh = true /\ dedup_filter_appended = true.
+Proof. split; reflexivity. Qed.
+
 (** * the multiset laws of the operators the methods really build: all multiplicities, rows with NULLs *)
 Theorem C07_laws : forall (a b : list row) (r : row),
   count (bagop (sql_sem (flags MUnion)) a b) r = count a r + count b r
